@@ -40,6 +40,16 @@ func init() {
 		QuickRuns: 6000, ThoroughRuns: 400000, QuickWall: 75 * time.Second, ThoroughWall: 20 * time.Minute,
 		Rule: "two halves. C05sys: one evaluation = one seeded simulated ROUTE run (no stream failures, ring capacity knob 1..8 or 1024) in which every translation the ack loop makes (observed at ShardManager.DeliverAckToShardOwner through a recording decorator) is compared with the harness's own map of proxy id -> (source, original id) for that stream, while the scheduler interleaves the send loop's Append between the ack loop's AggregateUpTo and Discard. C05ring: one evaluation = one seeded append/aggregate/discard history (capacities <1..16, 1-3 source shards, contiguous and gapped proxy ids, watermarks below/inside/above the stored range) against a slice reference model; this half is model-based op-sequence testing of a sequential component, not simulation. distinct = distinct trace fingerprint; non-trivial = messages and acks flowed (sys) / at least 3 operations (ring)",
 		Real: append(append([]string{}, routeReal...), "proxy.proxyIDRingBuffer driven directly (C05ring, through an in-package accessor added by the build overlay)"), Stub: routeStub, Assume: commonAssume})
+	passReal := []string{"proxy.adminServiceProxyServer.StreamWorkflowReplicationMessages (default and LCM modes)", "proxy.handleStream", "proxy.StreamForwarder (Run, forwardReplicationMessages, forwardAcks, startListener)", "proxy.mapShardIDUnique", "proxy.ReplicationStreamObserver incl. its periodic printer"}
+	passStub := []string{"gRPC stream objects and AdminServiceClient: vsim/simio", "initiating and serving Temporal clusters: harness endpoints that send numbered messages and end/fail the stream on command", "loggers: no-op"}
+	addSpec(&propSpec{ID: "C06", Profiles: []string{"C06", "C06clean"}, Level: "fault_enumeration",
+		QuickRuns: 4000, ThoroughRuns: 400000, QuickWall: 75 * time.Second, ThoroughWall: 20 * time.Minute,
+		Rule: "one evaluation = one seeded simulated PASS run: 1-3 concurrent pass-through streams (default or LCM mode), up to 9 messages each way, stream windows 1..8; in profile C06 the scheduler places terminal events (initiator half-close / cancel / transport break / send failure / unknown message kind; serving side EOF / error / break / send failure / unknown kind; failed open; stalled CloseSend) at arbitrary decisions; profile C06clean has none and checks completeness. distinct = distinct trace fingerprint; non-trivial = messages were relayed and (C06) a terminal event fired",
+		Real: passReal, Stub: passStub, Assume: commonAssume})
+	addSpec(&propSpec{ID: "C20", Profiles: []string{"C20"}, Level: "exploration",
+		QuickRuns: 4000, ThoroughRuns: 400000, QuickWall: 75 * time.Second, ThoroughWall: 20 * time.Minute,
+		Rule: "one evaluation = one seeded simulated PASS run in which 1-4 streams are opened with hostile cluster/shard metadata (boundary list incl. 0, -1, 1023..1025, 2^20 +-1, the int32 overflow threshold 238609294, 2^31-1, -2^31, values >= 2^32, non-numeric, missing, plus random huge and negative values; the range between 2^21 and the overflow threshold is excluded because it only costs memory), concurrently, followed by 1-2 well-formed streams; default and LCM modes; the stream observer's printer runs. distinct = distinct trace fingerprint; non-trivial = all hostile opens were issued and at least one message was relayed",
+		Real: passReal, Stub: passStub, Assume: commonAssume})
 	addSpec(&propSpec{ID: "C08", Profiles: []string{"C08", "C04"}, Level: "exploration",
 		QuickRuns: 1500, ThoroughRuns: 150000, QuickWall: 75 * time.Second, ThoroughWall: 20 * time.Minute,
 		Rule: "one evaluation = one seeded simulated ROUTE run with stream churn (successor incarnations opening while predecessors tear down); oracles: no unrecovered panic, functional probes on the newest incarnation, empty registries and no live task after all streams ended",
